@@ -547,10 +547,37 @@ def _enc_classes(g, rng, thorough):
             if comp:
                 b2[0] |= 0x80 | (0x20 if xv % 2 else 0)
             out.append(("small-x", bytes(b2), comp))
+        if K is F2:
+            for (kind, P) in g2_special_y_points(rng, 6 if not thorough else 12):
+                for Pt in (P, C.neg(P)):
+                    out.append(("special-y/" + kind, O.encode(K, Pt, comp), comp))
         for _ in range(6 if not thorough else 60):
             out.append(("random-bytes", bytes(rng.randrange(256) for _ in range(ln)), comp))
             b2 = bytearray(rng.randrange(256) for _ in range(ln)); b2[0] = (b2[0] & 0x1f) | (0x80 if comp else 0)
             out.append(("random-body-good-flags", bytes(b2), comp))
+    return out
+
+
+def g2_special_y_points(rng, n=3):
+    """points of E2 (not in the subgroup in general) whose y lies in Fq (c1 = 0) or is purely imaginary (c0 = 0):
+    x = s + b u with 3 s^2 b - b^3 + 4 = 0 makes x^3 + 4(1+u) an element of Fq"""
+    out = []
+    tries = 0
+    while len(out) < 2 * n and tries < 400:
+        tries += 1
+        b = rng.randrange(1, Q)
+        s2 = (b * b * b - 4) * O.finv(3 * b % Q) % Q
+        s_ = O.fsqrt(s2)
+        if s_ is None:
+            continue
+        x = (s_, b)
+        rhs = O.E2.rhs(x)
+        if rhs[1] != 0:
+            continue
+        y = F2.sqrt(rhs)
+        kind = "y-in-Fq" if y[1] == 0 else "y-purely-imaginary"
+        if sum(1 for k, _ in out if k == kind) < n:
+            out.append((kind, (x, y)))
     return out
 
 
@@ -587,6 +614,11 @@ def check_C05(ck):
             P = g.sub_pt(rng)
             pts.append(("neg-of-subgroup", C.neg(P)))
         cases, exp = [], []
+        if K is F2:
+            for (kind, P) in g2_special_y_points(rng, 6):
+                for Pt in (P, C.neg(P)):
+                    cases.append(("enc/special-y/" + kind, "%s enc_c %s" % (tag, g.A(Pt)))); exp.append(O.encode(K, Pt, True).hex())
+                    cases.append(("dec-unchecked/special-y/" + kind, "%s dec_cu %s" % (tag, O.encode(K, Pt, True).hex()))); exp.append(g.A(Pt))
         for (c, P) in pts:
             for comp in (True, False):
                 want = O.encode(K, P, comp).hex()
